@@ -25,6 +25,7 @@ const ndPath = "github.com/truora/minidyn/internal/nd"
 type Violation struct {
 	Kind   string
 	Msg    string
+	Par    bool // the path ran nd.Par: the counterexample includes a thread schedule
 	Model  string
 	Trail  []int
 	Values map[string]uint64 // nd name#occurrence -> value (replay input)
@@ -523,6 +524,13 @@ func init() {
 			fr.i.locks.track(args[0].(iface).v, 0)
 			return nil
 		},
+		ndPath + ".Section": func(fr *frame, args []value) value {
+			// run the closure once, recording every access to a tracked cell with the locks held
+			fr.i.locks.cur = args[0].(string)
+			defer func() { fr.i.locks.cur = "" }()
+			call(fr.i, fr, token.NoPos, args[1], nil)
+			return nil
+		},
 		ndPath + ".Begin": func(fr *frame, args []value) value { fr.i.locks.cur = args[0].(string); return nil },
 		ndPath + ".End":   func(fr *frame, args []value) value { fr.i.locks.cur = ""; return nil },
 		ndPath + ".NoRace": func(fr *frame, args []value) value {
@@ -599,7 +607,7 @@ func ndAssert(fr *frame, args []value) value {
 		if !c && !seenCrash["assert:"+id] {
 			seenCrash["assert:"+id] = true
 			_, model := fr.i.x.checkSat("true")
-			violations = append(violations, Violation{Kind: "assert", Msg: id, Model: model, Trail: trailChoices(fr.i.x), Values: replayValues(fr.i.x, model)})
+			violations = append(violations, Violation{Kind: "assert", Msg: id, Par: fr.i.x.usedPar, Model: model, Trail: trailChoices(fr.i.x), Values: replayValues(fr.i.x, model)})
 		}
 	case *sym:
 		fr.i.nontrivial = true
@@ -642,7 +650,7 @@ func (i *interpreter) decideAsserts(p []pendingAssert) {
 		}
 		if !seenCrash["assert:"+a.id] {
 			seenCrash["assert:"+a.id] = true
-			violations = append(violations, Violation{Kind: "assert", Msg: a.id, Model: model, Trail: trailChoices(x), Values: replayValues(x, model)})
+			violations = append(violations, Violation{Kind: "assert", Msg: a.id, Par: x.usedPar, Model: model, Trail: trailChoices(x), Values: replayValues(x, model)})
 		}
 		// continue under the assumption that it held
 		x.decide([]string{a.cond.e})
